@@ -23,6 +23,10 @@ def main():
         import check_tree
 
         return check_tree.run(a.prop, a.tier, replay=a.replay)
+    if a.prop == "C10":
+        import check_c10
+
+        return check_c10.run(a.prop, a.tier, replay=a.replay)
     if a.prop == "C20":
         import check_c20
 
